@@ -24,6 +24,8 @@ var c04Cfg = kit.WorldCfg{Stores: []kit.StoreCfg{
 	{Name: "kn", RefTo: "kt", RefWiring: kit.WireFkIndexNullable},
 	{Name: "kx", RefTo: "kt", RefWiring: kit.WireConstraintNone},
 	{Name: "kd", RefTo: "kt", RefWiring: kit.WireFkIndexCascade},
+	// a hierarchy inside one store: deleting a node removes its whole sub-tree (cascade through the same constraint, re-entrantly)
+	{Name: "tree", RefTo: "tree", RefWiring: kit.WireConstraintDel},
 	// "bk" is a child store over the referrer store bn: the non-nullable reference is declared on its parent
 }, Children: []kit.ChildCfg{{Name: "kt", Parent: "targets"}, {Name: "bk", Parent: "bn"}}}
 
@@ -48,12 +50,18 @@ func genC04(t *rapid.T) kit.History {
 	refs = append(refs, kit.Sp("missing"), kit.Sp(""))
 	// each history concentrates on 2-4 of the referrer stores, so that an entity is usually written several times
 	// (re-parented, patched, deleted) rather than nine stores receiving one operation each
-	allRefStores := []string{"an", "bn", "cn", "cd", "ec", "mgr", "kn", "kx", "kd"}
+	allRefStores := []string{"an", "bn", "cn", "cd", "ec", "mgr", "kn", "kx", "kd", "tree", "tree"}
 	var refStores []string
 	for i, k := 0, rapid.IntRange(2, 4).Draw(t, "nRefStores"); i < k; i++ {
 		refStores = append(refStores, allRefStores[rapid.IntRange(0, len(allRefStores)-1).Draw(t, fmt.Sprintf("refStore%d", i))])
 	}
-	return kit.GenHistory(t, c04Cfg, 20, 3, true, 30, func(t *rapid.T, l string, m *kit.Model) kit.Op {
+	cfg := c04Cfg
+	if rapid.IntRange(0, 2).Draw(t, "extendedKt") == 0 {
+		// the child store over targets is an extended one: it can read every target, but only targets with child data
+		// are valid targets of a reference to it
+		cfg.Children = []kit.ChildCfg{{Name: "kt", Parent: "targets", Extended: true}, {Name: "bk", Parent: "bn"}}
+	}
+	return kit.GenHistory(t, cfg, 20, 3, true, 30, func(t *rapid.T, l string, m *kit.Model) kit.Op {
 		existing := func(store string) []string {
 			var out []string
 			for _, id := range ids {
@@ -86,8 +94,8 @@ func genC04(t *rapid.T) kit.History {
 			if have := existing(store); len(have) > 0 {
 				id := have[rapid.IntRange(0, len(have)-1).Draw(t, l+"_rpid")]
 				pool := targets
-				if store == "mgr" {
-					pool = existing("mgr")
+				if store == "mgr" || store == "tree" {
+					pool = existing(store)
 				}
 				var refs []*string
 				for _, tid := range pool {
@@ -111,8 +119,8 @@ func genC04(t *rapid.T) kit.History {
 		op := kit.GenEntOpM(t, l, store, u, m)
 		if op.Spec != nil && rapid.IntRange(0, 9).Draw(t, l+"_goodref") < 7 {
 			pool := targets
-			if store == "mgr" {
-				pool = existing("mgr")
+			if store == "mgr" || store == "tree" {
+				pool = existing(store)
 			}
 			if store == "kn" || store == "kx" || store == "kd" {
 				pool = nil
@@ -158,6 +166,23 @@ func genC04Full(t *rapid.T) kit.History {
 			kit.Op{Kind: "delete", Store: "targets", ID: target},
 			kit.Op{Kind: "create", Store: store, ID: "s1", Spec: &kit.EntSpec{Name: "n", Ref: kit.Sp(target)}})
 		h.Txs = append(h.Txs, tx)
+		return h
+	}
+	if rapid.IntRange(0, 5).Draw(t, "treeChain") == 0 {
+		// a three-level hierarchy in the self-referencing cascade store, then the delete of its root: every node of the
+		// sub-tree goes, siblings at the same level included (the cascade re-enters itself for each child)
+		m := replayModel(h)
+		for _, id := range []string{"n0", "n1", "n1b", "n2", "n2b", "n3"} {
+			if _, exists := m.Ents["tree"][id]; exists {
+				return h
+			}
+		}
+		mk := func(id string, parent *string) kit.Op {
+			return kit.Op{Kind: "create", Store: "tree", ID: id, Spec: &kit.EntSpec{Name: "n", Ref: parent}}
+		}
+		h.Txs = append(h.Txs, kit.TxSpec{Ops: []kit.Op{mk("n0", nil), mk("n1", kit.Sp("n0")), mk("n1b", kit.Sp("n0")), mk("n2", kit.Sp("n1")), mk("n2b", kit.Sp("n1")), mk("n3", kit.Sp("n2"))}})
+		victim := []string{"n0", "n1", "n0"}[rapid.IntRange(0, 2).Draw(t, "treeVictim")]
+		h.Txs = append(h.Txs, kit.TxSpec{Ops: []kit.Op{{Kind: "delete", Store: "tree", ID: victim}}})
 		return h
 	}
 	if rapid.IntRange(0, 4).Draw(t, "swapReferrer") == 0 {
